@@ -2,6 +2,7 @@ package props
 
 import (
 	"fmt"
+	"os/exec"
 	"sort"
 	"strings"
 	"sync"
@@ -50,8 +51,59 @@ func slotFiles(dir string, kind int) map[string]string {
 			dir + "/wire_t.go": "//go:build wireinject && t\n// +build wireinject,t\n\npackage " + pkg + "\n\nimport \"github.com/google/wire\"\n\nfunc InitBroken() *Svc {\n\tpanic(wire.Build(NewSvc))\n}\n",
 		}
 	default:
-		return map[string]string{dir + "/foo.go": foo}
+		// no injectors, but a blank import (which wire carries over into outputs it does write)
+		return map[string]string{dir + "/foo.go": foo, dir + "/blank.go": "package " + pkg + "\n\nimport _ \"embed\"\n"}
 	}
+}
+
+// c17Cgo: a package that uses cgo (its compiled file list contains generated files outside the package directory)
+// next to a plain one; gen, diff, check and show must treat it like any other package.
+func c17Cgo(c *h.Check) {
+	if _, err := exec.LookPath("gcc"); err != nil {
+		c.Coverage["cgo_scenario"] = "skipped: no C compiler"
+		return
+	}
+	d := c.S.Dir("cgo")
+	h.WriteFiles(d, h.ModuleFiles("example.com/m"))
+	files := slotFiles("plain", kS1)
+	for p, cnt := range slotFiles("capp", kS2) {
+		files[p] = cnt
+	}
+	files["capp/native.go"] = "package capp\n\n/*\nstatic int forty_two(void) { return 42; }\n*/\nimport \"C\"\n\nfunc Native() int { return int(C.forty_two()) }\n"
+	h.WriteFiles(d, files)
+	env := h.BaseEnv("GOCACHE="+c.S.GoCache, "CGO_ENABLED=1")
+	before := h.ReadTree(d)
+	bad := func(sym, format string, a ...interface{}) {
+		c.AddViolation(h.Violation{CaseID: "C17/cgo-package", Symptom: sym, Detail: fmt.Sprintf(format, a...)}, nil, map[string]interface{}{"files": files})
+	}
+	r := h.RunLimited(d, env, 300e9, h.WireMemKB, c.S.Wire, "gen", "./capp", "./plain")
+	after := h.ReadTree(d)
+	if r.TimedOut {
+		c.Coverage["cgo_scenario"] = "skipped: the C toolchain did not finish in time"
+		return
+	}
+	if strings.Contains(r.Stderr, "cgo") && strings.Contains(r.Stderr, "exec") {
+		c.Coverage["cgo_scenario"] = "skipped: cgo cannot run here: " + clip(r.Stderr, 200)
+		return
+	}
+	diff := before.Diff(after)
+	sort.Strings(diff)
+	if r.Exit != 0 {
+		bad("gen-status", "gen exits %d on two well-formed packages of which one uses cgo:\n%s", r.Exit, clip(r.Stderr, 1200))
+	}
+	if want := []string{"created:capp/wire_gen.go", "created:plain/wire_gen.go"}; fmt.Sprint(diff) != fmt.Sprint(want) {
+		bad("footprint", "gen changed %v, want %v\n%s", diff, want, clip(r.Stderr, 800))
+	}
+	for _, sub := range []string{"diff", "check", "show"} {
+		r2 := h.RunLimited(d, env, 300e9, h.WireMemKB, c.S.Wire, sub, "./capp", "./plain")
+		if r2.Exit != 0 && r.Exit == 0 {
+			bad(sub+"-status", "%s right after a successful gen exits %d:\n%s", sub, r2.Exit, clip(r2.Stdout+r2.Stderr, 800))
+		}
+		if ch := after.Diff(h.ReadTree(d)); len(ch) > 0 {
+			bad("readonly-command-writes", "%s changed the tree: %v", sub, ch)
+		}
+	}
+	c.Coverage["cgo_scenario"] = "ran: gen/diff/check/show on a cgo package next to a plain one"
 }
 
 type c17Meta struct {
@@ -356,6 +408,11 @@ func checkC17(c *h.Check) {
 		}
 		return vs
 	}
+	if c.Only == "C17/cgo-package" {
+		c17Cgo(c)
+		c.Coverage["states"], c.Coverage["transitions"], c.Coverage["traces_validated_against_impl"] = 1, 1, 1
+		return
+	}
 	if c.Only != "" {
 		// replay of one recorded history, without the explorer
 		rvs, err := ex.Replay(initial, c.Only)
@@ -369,6 +426,7 @@ func checkC17(c *h.Check) {
 		c.Samples = append(c.Samples, c.Only)
 		return
 	}
+	c17Cgo(c)
 	vs := ex.Explore(initial, c.Deadline)
 	sort.Slice(vs, func(i, j int) bool { return len(vs[i].CaseID) < len(vs[j].CaseID) })
 	for _, v := range vs {
@@ -384,7 +442,7 @@ func checkC17(c *h.Check) {
 	c.Coverage["initial_states"] = len(initial)
 	c.Coverage["evaluations"] = ex.Transitions
 	c.Coverage["distinct_nontrivial"] = ex.States
-	c.Coverage["rule"] = fmt.Sprintf("explicit-state BFS (states = module trees by hash) from every assignment of package kinds {S1 accepted with a tag-dependent injector file, S2 accepted, F analysis fails, N no injectors, FT fails only under -tags t} to %d package slots x prior output content chosen per slot {absent, identical, stale, identical plus trailing bytes, truncated prefix}; transitions: gen x {no option, -header_file readable, -header_file missing, -header_file naming a directory, -output_file_prefix, -tags, default-command form}, diff x {none, header, header missing, tags}, check and show x {none, tags}; gen/diff/check with patterns naming a missing or an empty directory; chained to depth %d. Reference contract evaluated on every transition: exit status rules, exact file footprint, outputs equal to generating each package alone from scratch, read-only commands leave the tree hash unchanged, diff 0/1/2.", nslots, depth)
+	c.Coverage["rule"] = fmt.Sprintf("explicit-state BFS (states = module trees by hash) from every assignment of package kinds {S1 accepted with a tag-dependent injector file, S2 accepted, F analysis fails, N no injectors but a blank import, FT fails only under -tags t} to %d package slots x prior output content chosen per slot {absent, identical, stale, identical plus trailing bytes, truncated prefix}; transitions: gen x {no option, -header_file readable, -header_file missing, -header_file naming a directory, -output_file_prefix, -tags, default-command form}, diff x {none, header, header missing, tags}, check and show x {none, tags}; gen/diff/check with patterns naming a missing or an empty directory; chained to depth %d. Reference contract evaluated on every transition: exit status rules, exact file footprint, outputs equal to generating each package alone from scratch, read-only commands leave the tree hash unchanged, diff 0/1/2.", nslots, depth)
 	c.Samples = append(c.Samples, map[string]interface{}{"initial": initial[len(initial)/2].Path, "ops": []string{"gen:header", "diff:none", "check:tags"}})
 	c.Assumptions = append(c.Assumptions, "a failing package is one whose Wire analysis fails; packages that do not type-check abort the whole load by design and are outside the alphabet", "reference output = the same binary generating the package alone from scratch (differential)")
 	if !ex.Closed {
